@@ -584,6 +584,11 @@ func (pr *prover) visit(t Term) {
 		case "builtin.cap":
 			pr.add(pr.lenTerm(x.Call.Args[0]), t, 0)
 		}
+	case *ssa.UnOp:
+		// a package-level variable assigned once: it has its initialiser's value
+		if gv := pr.bd.P.GlobalInit(x); gv != nil && pr.depth < 3 {
+			pr.eq(t, pr.termOf(gv), 0)
+		}
 	case *ssa.Extract:
 		if c, ok := x.Tuple.(*ssa.Call); ok {
 			if callee := StaticCallee(c.Common()); callee != nil && pr.bd.P.InModule(callee) {
